@@ -68,24 +68,53 @@ func verifC35MetaAddress(i byte) []byte {
 	return a
 }
 
+// verifC35Fixture registers the metachain accounts of the shared user accounts DB. A validator's reward address is
+// whatever its owner set through the validator SC, so it can be any metachain address; four kinds exist on a real
+// metachain: 0 = a real delegation system SC (account whose storage holds DelegationSystemSCKey), 1 = an existing
+// account with storage but without that key (staking / validator / ESDT system SC...: RetrieveValue answers nil, nil),
+// 2 = an address without account, 3 = an existing account without storage. Only kind 0 may receive rewards.
 func verifC35Fixture(t *testing.T) {
 	verifC35Once.Do(func() {
 		verifC35BaseArgs = getBaseRewardsArguments()
 		verifC35Deleg = map[string]bool{}
-		for i := byte(0); i < 6; i++ {
+		adb := verifC35BaseArgs.UserAccountsDB
+		for i := byte(0); i < 8; i++ {
 			a := verifC35MetaAddress(i)
 			verifC35MetaPool = append(verifC35MetaPool, a)
-			if i%2 == 0 {
-				acc, err := verifC35BaseArgs.UserAccountsDB.LoadAccount(a)
-				if err != nil {
-					t.Fatalf("fixture: LoadAccount: %v", err)
-				}
-				userAcc := acc.(state.UserAccountHandler)
+			kind := i % 4
+			if kind == 2 {
+				continue
+			}
+			acc, err := adb.LoadAccount(a)
+			if err != nil {
+				t.Fatalf("fixture: LoadAccount: %v", err)
+			}
+			userAcc := acc.(state.UserAccountHandler)
+			switch kind {
+			case 0:
 				_ = userAcc.DataTrieTracker().SaveKeyValue([]byte(core.DelegationSystemSCKey), []byte(core.DelegationSystemSCKey))
-				if err = verifC35BaseArgs.UserAccountsDB.SaveAccount(userAcc); err != nil {
-					t.Fatalf("fixture: SaveAccount: %v", err)
-				}
+				_ = userAcc.DataTrieTracker().SaveKeyValue([]byte("otherKey"), []byte("otherValue"))
 				verifC35Deleg[string(a)] = true
+			case 1:
+				_ = userAcc.DataTrieTracker().SaveKeyValue([]byte("someStakingKey"), []byte("someStakingValue"))
+			}
+			if err = adb.SaveAccount(userAcc); err != nil {
+				t.Fatalf("fixture: SaveAccount: %v", err)
+			}
+		}
+		// fixture self-check through the public accounts API (independent of the code under test)
+		for i, a := range verifC35MetaPool {
+			acc, err := adb.GetExistingAccount(a)
+			kind := i % 4
+			if (err == nil) != (kind != 2) {
+				t.Fatalf("fixture: metachain account %d (kind %d): GetExistingAccount err=%v", i, kind, err)
+			}
+			if err != nil {
+				continue
+			}
+			val, errGet := acc.(state.UserAccountHandler).DataTrieTracker().RetrieveValue([]byte(core.DelegationSystemSCKey))
+			if (len(val) > 0) != (kind == 0) {
+				t.Fatalf("fixture: metachain account %d (kind %d): delegation key value %q err %v", i, kind, val, errGet)
 			}
 		}
 	})
@@ -612,7 +641,7 @@ func verifC35Classify(c *kit.Case, in *verifC35Input, v2 bool) {
 	}
 }
 
-const verifC35Rule = "1-3 shards + metachain, consensus size 1-5, 0-50 blocks and 0-8 validators per shard (eligible/waiting/leaving/jailed/inactive) with selection and success counters consistent with the block counts (some offline), reward addresses from a per-case pool of 1-6 (shard addresses, metachain addresses registered or not as delegation SC), economics derived as ComputeEndOfEpochEconomics does (T, D, L, P, R = T-D-L-P, RewardsPerBlock with per-block flooring; amounts from 0 to ~1e26), leader fees spread over the leaders, top-up stake per node (v2), top-up factor in {0,.25,.5,.999,1}, delegation flag and rewards-fix-1 flag on/off. Oracle: sum of reward tx values == T - D exactly; validator txs > 0; protocol tx >= P; receivers in a shard or an enabled delegation SC; a second creator verifies the result and rejects a changed hash. Non-trivial = total > 0 and >= 2 active validators share a reward address and >= 1 offline validator with selections and >= 1 metachain reward address (v2: and top-up > 0); distinct by full input"
+const verifC35Rule = "1-3 shards + metachain, consensus size 1-5, 0-50 blocks and 0-8 validators per shard (eligible/waiting/leaving/jailed/inactive) with selection and success counters consistent with the block counts (some offline), reward addresses from a per-case pool of 1-6 (shard addresses, metachain addresses of four kinds: delegation SC / existing account with storage but no delegation key / no account / account without storage), economics derived as ComputeEndOfEpochEconomics does (T, D, L, P, R = T-D-L-P, RewardsPerBlock with per-block flooring; amounts from 0 to ~1e26), leader fees spread over the leaders, top-up stake per node (v2), top-up factor in {0,.25,.5,.999,1}, delegation flag and rewards-fix-1 flag on/off. Oracle: sum of reward tx values == T - D exactly; validator txs > 0; protocol tx >= P; receivers in a shard or an enabled delegation SC; a second creator verifies the result and rejects a changed hash. Non-trivial = total > 0 and >= 2 active validators share a reward address and >= 1 offline validator with selections and >= 1 metachain reward address (v2: and top-up > 0); distinct by full input"
 
 func TestVerifC35_RewardsV2(t *testing.T) {
 	verifC35Fixture(t)
